@@ -112,6 +112,8 @@ structure Sim where
   events : Nat := 0
   out : List String := []
   acceptOk : Bool := true
+  /-- calls whose caller currently does not poll the call future (`park`) -/
+  parked : List Nat := []
   c12 : Bool := true
   c19 : Bool := true
   diffs : Nat := 0
@@ -725,7 +727,8 @@ def onSettled (s : Sim) (line : Nat) (ws : List String) : Sim :=
     | some t => (t.splitOn ",").filterMap (·.toNat?)
     | none => []
   -- only calls that have started (a `Fin` call may still wait for its client handle)
-  let pendingReal := pendingAll.filter (fun t => ((s.getCall t).bind (·.mid)).isSome)
+  -- (a call whose caller is not polling it at the moment says nothing about the server)
+  let pendingReal := pendingAll.filter (fun t => ((s.getCall t).bind (·.mid)).isSome && !s.parked.contains t)
   -- c19 on the real history ----------------------------------------------------------------
   let s := s.calls.foldl (fun s ci =>
     if ci.abandonT.isSome && !ci.abandonSettled then
@@ -761,16 +764,22 @@ def onSettled (s : Sim) (line : Nat) (ws : List String) : Sim :=
   let closed := s.states.flatMap (fun st0 =>
     if s.exact then [closure s.cfg st0 true 400] else [closure s.cfg st0 false 400, closure s.cfg st0 true 400])
   let judged := closed.map (fun st =>
-    let vis := visibleEnabled s.cfg s.calls st
+    -- (the caller of a parked call does not take its reply for the moment: an environment choice)
+    let parkedMids := (s.calls.filter (fun ci => s.parked.contains ci.tag)).filterMap (·.mid)
+    let vis := (visibleEnabled s.cfg s.calls st).filter (fun l => match l with
+      | .recvReply m => !parkedMids.contains m
+      | _ => true)
     let d1 := if vis != [] then [s!"the real system is quiescent but the model can still take {vis.map (showLabel s.calls)}"] else []
-    let pendingModel := (s.calls.filter (fun ci => match ci.mid with
+    let pendingModel := ((s.calls.filter (fun ci => match ci.mid with
       | some mid => (st.calls mid).cl == .waiting
-      | none => false)).map (·.tag)
+      | none => false)).map (·.tag)).filter (fun t => !s.parked.contains t)
     let d2 := if pendingModel != pendingReal then [s!"pending calls differ: real {pendingReal}, model {pendingModel}"] else []
     let ms := modelServe st
     let serveCls := if serve == "ok" && target == "none" then "ok:none" else serve
     let serveCls := if serveCls.startsWith "err:reply" && (ms == "ok:none" || ms == "ok") then ms else serveCls
-    let d3 := if ms != serveCls then [s!"serve status differs: real {serve}, model {ms}"] else []
+    -- (`serve` ends only when its reply transmissions have ended; to a local caller that does not take its
+    -- reply at the moment the transmission has not ended: not compared while a call is parked)
+    let d3 := if ms != serveCls && s.parked.isEmpty then [s!"serve status differs: real {serve}, model {ms}"] else []
     let ml := modelLock s.flavour st
     -- in bursts the model leaves requests whose arrival order is not determined outside the queue
     let undecided := !s.exact && (List.range st.n).any (fun c => (st.calls c).stage == .sending)
@@ -879,6 +888,8 @@ def stepLine (a : RunAcc) (n : Nat) (line : String) : IO RunAcc := do
   | "ev" :: "ret" :: t :: rest => return { a with sim := s.onRet n (t.toNat?.getD 0) rest }
   | ["ev", "abandon", t] => return { a with sim := s.onAbandon n (t.toNat?.getD 0) }
   | "ev" :: "served" :: r :: rest => return { a with sim := s.onServed n r ((kvGet rest "target").getD "na") }
+  | ["ev", "park", t] => return { a with sim := { s with parked := s.parked ++ [t.toNat?.getD 0] } }
+  | ["ev", "unpark", t] => return { a with sim := { s with parked := s.parked.filter (· != t.toNat?.getD 0) } }
   | ["ev", "hang", t] => return { a with sim := s.fail "c19" n s!"call {t} never completes (still pending when nothing in the process can run)" }
   | "settled" :: rest => return { a with sim := s.onSettled n rest }
   | ["cleanup"] => return { a with sim := { s with cleanup := true } }
